@@ -477,7 +477,71 @@ class DaemonAttr(ast.NodeTransformer):
                 return [n, ast.Assign(targets=[ast.Attribute(value=t, attr='daemon', ctx=ast.Store())], value=kws[0].value)]
         return n
 
-T = {'negcmp': NegCompare, 'splitisi': SplitIsinstance, 'splitwith': SplitWith, 'mergewith': MergeWith, 'tern2if': TernaryToIf, 'if2tern': IfToTernary, 'kwtimeout': KwTimeout, 'postimeout': PosTimeout, 'earlycont': EarlyContinue, 'rettern': RetTern, 'retif': RetIf, 'demorgan': DeMorgan, 'whilecond': WhileCond, 'swapeq': SwapEq, 'splitin': SplitIn, 'dictlit': DictLit, 'unchain': Unchain, 'untuple': Untuple, 'orassign': OrAssign, 'splitexcept': SplitExcept, 'retnone': RetNone, 'elseremove': ElseRemove, 'elseadd': ElseAdd, 'comp2loop': Comp2Loop, 'whiletrue': WhileTrue, 'elsepass': ElsePass, 'testtemp': TestTemp, 'with2acq': With2Acq, 'commute': Commute, 'ret2tern': Ret2Tern, 'nowait': NoWait, 'raisecall': RaiseCall, 'raisebare': RaiseBare, 'awith2acq': AWith2Acq, 'tup2list': Tup2List, 'dropasname': DropAsName, 'addasname': AddAsName, 'maxsizepos': MaxsizePos, 'maxsizekw': MaxsizeKw, 'daemonattr': DaemonAttr}
+class YieldFromLoop(ast.NodeTransformer):
+    """yield from X (statement)  ->  for _v in X: yield _v"""
+    def visit_Expr(self, n):
+        if isinstance(n.value, ast.YieldFrom):
+            count[0] += 1
+            return ast.For(target=ast.Name(id='_v', ctx=ast.Store()), iter=n.value.value, body=[ast.Expr(value=ast.Yield(value=ast.Name(id='_v', ctx=ast.Load())))], orelse=[])
+        return n
+
+
+class LoopYieldFrom(ast.NodeTransformer):
+    """for v in X: yield v  ->  yield from X   (not in async generators)"""
+    def visit_AsyncFunctionDef(self, n):
+        return n
+    def visit_For(self, n):
+        self.generic_visit(n)
+        if not n.orelse and len(n.body) == 1 and isinstance(n.body[0], ast.Expr) and isinstance(n.body[0].value, ast.Yield) and isinstance(n.target, ast.Name) and isinstance(n.body[0].value.value, ast.Name) and n.body[0].value.value.id == n.target.id:
+            count[0] += 1
+            return ast.Expr(value=ast.YieldFrom(value=n.iter))
+        return n
+
+
+class ArgsList(ast.NodeTransformer):
+    """Thread(target=f, args=(a, b)) -> args=[a, b]"""
+    def visit_Call(self, n):
+        self.generic_visit(n)
+        for k in n.keywords:
+            if k.arg == 'args' and isinstance(k.value, ast.Tuple):
+                count[0] += 1
+                k.value = ast.List(elts=k.value.elts, ctx=ast.Load())
+        return n
+
+class Suppress(ast.NodeTransformer):
+    """try: B except E: pass  ->  with contextlib.suppress(E): B      (SIM105; no else / finally, one handler, no name)"""
+    def visit_Try(self, n):
+        self.generic_visit(n)
+        if len(n.handlers) == 1 and not n.orelse and not n.finalbody and n.handlers[0].type is not None and n.handlers[0].name is None and len(n.handlers[0].body) == 1 and isinstance(n.handlers[0].body[0], ast.Pass) and not any(isinstance(x, (ast.Return, ast.Yield, ast.YieldFrom, ast.Await)) for b in n.body for x in ast.walk(b)):
+            count[0] += 1
+            t = n.handlers[0].type
+            args = list(t.elts) if isinstance(t, ast.Tuple) else [t]
+            return ast.With(items=[ast.withitem(context_expr=ast.Call(func=ast.Attribute(value=ast.Name(id='contextlib', ctx=ast.Load()), attr='suppress', ctx=ast.Load()), args=args, keywords=[]), optional_vars=None)], body=n.body)
+        return n
+
+
+class EmptyCtor(ast.NodeTransformer):
+    def visit_List(self, n):
+        if not n.elts and isinstance(n.ctx, ast.Load):
+            count[0] += 1
+            return ast.Call(func=ast.Name(id='list', ctx=ast.Load()), args=[], keywords=[])
+        return self.generic_visit(n)
+    def visit_Dict(self, n):
+        if not n.keys:
+            count[0] += 1
+            return ast.Call(func=ast.Name(id='dict', ctx=ast.Load()), args=[], keywords=[])
+        return self.generic_visit(n)
+
+
+class EmptyLit(ast.NodeTransformer):
+    def visit_Call(self, n):
+        self.generic_visit(n)
+        if isinstance(n.func, ast.Name) and not n.args and not n.keywords and n.func.id in ('list', 'dict'):
+            count[0] += 1
+            return ast.List(elts=[], ctx=ast.Load()) if n.func.id == 'list' else ast.Dict(keys=[], values=[])
+        return n
+
+T = {'negcmp': NegCompare, 'splitisi': SplitIsinstance, 'splitwith': SplitWith, 'mergewith': MergeWith, 'tern2if': TernaryToIf, 'if2tern': IfToTernary, 'kwtimeout': KwTimeout, 'postimeout': PosTimeout, 'earlycont': EarlyContinue, 'rettern': RetTern, 'retif': RetIf, 'demorgan': DeMorgan, 'whilecond': WhileCond, 'swapeq': SwapEq, 'splitin': SplitIn, 'dictlit': DictLit, 'unchain': Unchain, 'untuple': Untuple, 'orassign': OrAssign, 'splitexcept': SplitExcept, 'retnone': RetNone, 'elseremove': ElseRemove, 'elseadd': ElseAdd, 'comp2loop': Comp2Loop, 'whiletrue': WhileTrue, 'elsepass': ElsePass, 'testtemp': TestTemp, 'with2acq': With2Acq, 'commute': Commute, 'ret2tern': Ret2Tern, 'nowait': NoWait, 'raisecall': RaiseCall, 'raisebare': RaiseBare, 'awith2acq': AWith2Acq, 'tup2list': Tup2List, 'dropasname': DropAsName, 'addasname': AddAsName, 'maxsizepos': MaxsizePos, 'maxsizekw': MaxsizeKw, 'daemonattr': DaemonAttr, 'yf2loop': YieldFromLoop, 'loop2yf': LoopYieldFrom, 'argslist': ArgsList, 'suppress': Suppress, 'emptyctor': EmptyCtor, 'emptylit': EmptyLit}
 
 
 def apply(name):
